@@ -1,7 +1,31 @@
 #![no_main]
 //! C18 under coverage guidance: any byte sequence loaded as a voice returns Ok or Err.
-use libfuzzer_sys::fuzz_target;
+//! Structure-aware custom mutator: half of the mutations are the harness's own fault operators
+//! (header numbers, ranges, lines, tree/question tokens, truncations ...) applied to the current
+//! input, the other half libFuzzer's byte-level mutations.
+use libfuzzer_sys::{fuzz_mutator, fuzz_target, fuzzer_mutate};
 
 fuzz_target!(|data: &[u8]| {
     jbverif::fuzz_support::load_voice(data);
+});
+
+fuzz_mutator!(|data: &mut [u8], size: usize, max_size: usize, seed: u32| {
+    if seed % 2 == 0 {
+        return fuzzer_mutate(data, size, max_size);
+    }
+    // choice tape for the fault operator, derived from libFuzzer's seed
+    let mut x = (seed as u64).wrapping_mul(0x9E37_79B9_7F4A_7C15) | 1;
+    let words: Vec<u32> = (0..64)
+        .map(|_| {
+            x ^= x << 13;
+            x ^= x >> 7;
+            x ^= x << 17;
+            (x >> 16) as u32
+        })
+        .collect();
+    let mut t = jbverif::tape::Tape::new(&words);
+    let (out, _) = jbverif::faults::apply_fault(&mut t, &data[..size]);
+    let n = out.len().min(max_size).min(data.len());
+    data[..n].copy_from_slice(&out[..n]);
+    n
 });
